@@ -129,6 +129,29 @@ func cmdVerify(args []string) int {
 			byRes[o.Result]++
 			if o.Result != want && o.Result != "skipped" {
 				bad++
+				if *verbose || o.Result == "unknown" {
+					// diagnosis: is the goal provable from the quantifier-free hypotheses alone?
+					var vcOf *VC
+					for _, vc := range vcs {
+						for _, oo := range vc.Obls {
+							if oo == o {
+								vcOf = vc
+							}
+						}
+					}
+					if vcOf != nil && want == "unsat" {
+						c := *vcOf
+						c.Assumes = make([]*Term, len(vcOf.Assumes))
+						for i, a := range vcOf.Assumes {
+							c.Assumes[i] = stripQuantified(a)
+						}
+						text := e.script(&c, o, nil, nil)
+						f := dir + "/approx.smt2"
+						os.WriteFile(f, []byte(text), 0o644)
+						r, _, _ := runSolver("z3-new", f, 5)
+						o.Detail += " [qf-approx: " + r + "]"
+					}
+				}
 				fmt.Printf("   FAIL %-40s %-8s %-7s %5.2fs %s  %s | %s\n", o.Name+"@"+o.Case, o.Result, o.Solver, o.Seconds, o.Pos, o.Detail, firstLineOf(o.Output))
 			} else if *verbose {
 				fmt.Printf("   ok   %-40s %-8s %-7s %5.2fs %s  %s\n", o.Name+"@"+o.Case, o.Result, o.Solver, o.Seconds, o.Pos, o.Detail)
